@@ -99,10 +99,12 @@ def r1(ctx, chk):
     chk.floor(rule, n_req, 1, "loader calls for the requested locales")
     # each yielded requested locale passed the applicability test for this string
     for y in groups["requested"]:
-        guarded = any(p and "_is_applicable_locale(locale" in ast.unparse(a_) for t, pol in enclosing_tests(f.node, y) for a_, p in conjuncts(t, pol))
+        guarded = any(p and "_is_applicable_locale(" in ast.unparse(a_) for t, pol in enclosing_tests(f.node, y) for a_, p in conjuncts(t, pol))
         chk.ob(rule, "a requested locale is yielded only if applicable to the string", guarded, "",
                key={"function": f.key, "construct": "applicability"}, file=f.file, function=f.qual, line=y.lineno)
-        chk.ob(rule, "the yielded value is the loop's locale", ast.unparse(y.value.value) == "locale", "",
+        from ..core.ctx import ancestors as _anc
+        loopv = [ast.unparse(a_.target) for a_ in _anc(f.node, y) if isinstance(a_, ast.For) and "get_locales" in ast.unparse(a_.iter)]
+        chk.ob(rule, "the yielded value is the loop's locale", bool(loopv) and ast.unparse(y.value.value) == loopv[0], "",
                key={"function": f.key, "construct": "yield locale"}, file=f.file, function=f.qual, line=y.lineno)
     # constructor stores, parse() forwards
     init = ix.func(DDP + ".__init__")
@@ -195,21 +197,23 @@ def r3(ctx, chk):
     t = " ".join(ast.unparse(f.node).split())
     chk.ob(rule, "unknown languages are those not in language_order", "set(languages) - set(language_order)" in t, "",
            key={"function": f.key, "construct": "unknown languages"}, file=f.file, function=f.qual, line=f.node.lineno)
-    chk.ob(rule, "languages default to every language when none are given", "if languages is None: languages = language_order" in t, "",
+    chk.ob(rule, "languages default to every language when none are given", ("if languages is None: languages = language_order" in t or "languages = language_order if languages is None else languages" in t), "",
            key={"function": f.key, "construct": "all languages"}, file=f.file, function=f.qual, line=f.node.lineno)
     cl = ix.func("dateparser.languages.loader:_construct_locales")
     t2 = " ".join(ast.unparse(cl.node).split())
-    ok = "language + '-' + region for language in languages" in t2 and "_filter_valid_locales(possible_locales)" in t2
+    import re as _re
+    ok = _re.search(r"\[(\w+) \+ '-' \+ region for \1 in languages\]", t2) is not None and "_filter_valid_locales(" in t2
     chk.ob(rule, "a region builds language-region locales filtered by the index", ok, "",
            key={"function": cl.key, "construct": "region locales"}, file=cl.file, function=cl.qual, line=cl.node.lineno)
     iv = ix.func("dateparser.languages.loader:_isvalidlocale")
     t3 = " ".join(ast.unparse(iv.node).split())
-    ok = "language not in language_order" in t3 and "language_locale_dict[language]" in t3 and "locale == language or locale in locales_list" in t3
+    ok = _re.search(r"(\w+) not in language_order", t3) is not None and _re.search(r"language_locale_dict\[(\w+)\]", t3) is not None \
+        and _re.search(r"locale == (\w+) or locale in (\w+)", t3) is not None
     chk.ob(rule, "a locale is valid iff its language is known and it is the language itself or one of its listed locales", ok, "",
            key={"function": iv.key, "construct": "valid locale"}, file=iv.file, function=iv.qual, line=iv.node.lineno)
     # Locale construction overlays locale_specific for exactly the shortname
     li = ix.func("dateparser.languages.locale:Locale.__init__")
     t4 = " ".join(ast.unparse(li.node).split())
-    ok = "language_info.get('locale_specific', {}).get(shortname, {})" in t4 and "combine_dicts(language_info, locale_specific_info)" in t4
+    ok = "language_info.get('locale_specific', {}).get(shortname, {})" in t4 and _re.search(r"combine_dicts\(language_info, (\w+)\)", t4) is not None
     chk.ob(rule, "a Locale overlays the language data with locale_specific[shortname]", ok, "",
            key={"function": li.key, "construct": "locale overlay"}, file=li.file, function=li.qual, line=li.node.lineno)
